@@ -1709,3 +1709,120 @@ def grd10_closed_intervals(P, R, L, rule="GRD-10"):
                     "a user key is compared with a file bound as a closed interval (X < smallest | X >= smallest | X > largest | X <= largest)",
                     "`lhs %s rhs` with lhs colour %s, rhs colour %s" % (c.op, lc, rc))
     R.floor(rule, "user-key vs file-bound comparisons", n, 11)
+
+
+# ------------------------------------------------------------------------------------------- ORD-8b sequence range of the group / ORD-17 manual slot
+def ord8b_sequence_range(P, R, L, rule="ORD-8b"):
+    """The published sequence is prev + len(the merged batch), the batch's starting sequence is prev + 1, and it is that
+    same batch that is logged and applied."""
+    b = P.body(APPLY)
+    if b is None:
+        return R.missing_anchor(rule, APPLY)
+    R.analysed(b)
+    pubs = normal_sites(b, SET_PREV_SEQ)
+    starts = normal_sites(b, "batch::Batch::set_starting_seq_number")
+    ucs = [(u, cb) for (u, cb) in unlocked_closures(P, L, b) if P.fn_reaches(cb.path, [APPLY_BATCH])]
+    if not (pubs and starts and ucs):
+        return R.check(rule, APPLY + "|anchors", False, where(b), "publication, starting sequence and the WAL+memtable section exist", "")
+    # the batch captured by the section
+    captured = set()
+    for bb in b.blocks:
+        for st in bb["stmts"]:
+            if st["k"] == "assign" and st["rv"]["k"] == "aggregate" and st["rv"].get("closure") in [cb.path for (_, cb) in ucs]:
+                for nm, op in zip(st["rv"]["fields"], st["rv"]["ops"]):
+                    if op["k"] in ("copy", "move") and "Batch" in b.local_ty(op["pl"]["l"]):
+                        captured |= roots(b, op)
+    batch_roots = {l for l in captured if "batch::Batch" in b.local_ty(l) and not b.local_ty(l).startswith("&")}
+    ok = bool(batch_roots)
+    det = []
+    for p_ in pubs:
+        good = False
+        for o in origins(b, p_.args[1]):
+            if o.kind == "binop" and o.name.startswith("Add") and o.extra:
+                ops = o.extra[1]["rv"]["ops"]
+                sides = [origins(b, x) for x in ops]
+                has_prev = any(any(y.kind == "call" and y.name == PREV_SEQ for y in s_) for s_ in sides)
+                lens = [y for s_ in sides for y in s_ if y.kind == "call" and y.name == "batch::Batch::len"]
+                same = any(roots(b, y.site.args[0]) & batch_roots for y in lens if y.site is not None)
+                if has_prev and same:
+                    good = True
+        if not good:
+            ok = False
+            det.append("the published value is not get_prev_sequence_number() + len(the batch that is logged and applied)")
+    for s in starts:
+        if not (roots(b, s.args[0]) & batch_roots):
+            ok = False
+            det.append("set_starting_seq_number is applied to a different batch than the one logged")
+        good = False
+        for o in origins(b, s.args[1]):
+            if o.kind == "binop" and o.name.startswith("Add") and o.extra:
+                ops = o.extra[1]["rv"]["ops"]
+                sides = [origins(b, x) for x in ops]
+                if any(any(y.kind == "call" and y.name == PREV_SEQ for y in s_) for s_ in sides) and \
+                        any(any(y.kind == "const" and y.name == "1" for y in s_) for s_ in sides):
+                    good = True
+        if not good:
+            ok = False
+            det.append("the starting sequence is not get_prev_sequence_number() + 1")
+    # inside the section: the appended bytes and the applied batch are the captured batch
+    for (u, cb) in ucs:
+        for c in normal_sites(cb, APPLY_BATCH):
+            if not any(o.kind == "upvar" for o in origins(cb, c.args[1])):
+                ok = False
+                det.append("apply_batch_to_memtable is not given the captured batch")
+        for c in sites_reaching(P, cb, LOG_APPEND):
+            if c.name == LOG_APPEND and not any(o.kind == "upvar" for o in origins(cb, c.args[1], transparent=__import__("rdbcheck.dataflow", fromlist=["x"]).TRANSPARENT | {
+                    "<std::vec::Vec<u8> as std::convert::From<&batch::Batch>>::from", "std::convert::From::from"})):
+                ok = False
+                det.append("the WAL record is not the serialisation of the captured batch")
+    R.check(rule, APPLY + "|sequence-range-of-group", ok, where(b),
+            "the group is numbered prev+1 .. prev+len(group) and exactly that batch is logged, applied and published", "; ".join(det))
+    # apply_batch_to_memtable numbers entries consecutively from the batch's starting sequence
+    ab = P.body(APPLY_BATCH)
+    if ab is not None:
+        R.analysed(ab)
+        st = any(c.name == "batch::Batch::get_starting_seq_number" for c in ab.calls())
+        inc = any(st_["k"] == "assign" and st_["rv"]["k"] == "binop" and st_["rv"]["op"].startswith("Add") and in_cycle(ab, bb_i)
+                  and any(o.get("val") == "1" for o in st_["rv"]["ops"] if o["k"] == "const")
+                  for bb_i in range(ab.n) for st_ in ab.blocks[bb_i]["stmts"])
+        R.check(rule, APPLY_BATCH + "|consecutive-sequences", st and inc, where(ab),
+                "entries are numbered from get_starting_seq_number() in steps of 1 inside the loop", "start=%s increment=%s" % (st, inc))
+
+
+def ord17_manual_slot(P, R, L, rule="ORD-17"):
+    """A manual compaction request is always taken out of `maybe_manual_compaction` by the worker run that saw it,
+    and `done` is written: otherwise force_level_compaction waits forever."""
+    b = P.body(COORD)
+    if b is None:
+        return R.missing_anchor(rule, COORD)
+    R.analysed(b)
+    sees = [c for c in b.calls() if c.name == "std::option::Option::is_some" and not b.is_cleanup(c.bb)
+            and any("maybe_manual_compaction" in o.path for o in origins(b, c.args[0]))]
+    takes = [c for c in b.calls() if c.name == "std::option::Option::take" and not b.is_cleanup(c.bb)
+             and any("maybe_manual_compaction" in o.path for o in origins(b, c.args[0]))]
+    dones = field_stores(b, "done")
+    ok = bool(sees) and bool(takes) and bool(dones)
+    det = []
+    for s in sees:
+        asm = {s.dest["l"]: 1}
+        if s.dest["l"] not in b.stable_bools() or s.target is None:
+            ok = False
+            det.append("the observation is not kept in a single-assignment bool that is re-tested")
+            continue
+        e = s.target
+        if not all(b.must_pass_fs(r, through_nodes=[x.bb for x in takes], start=e, assume=asm) for r in b.return_blocks()):
+            ok = False
+            det.append("a run that saw a manual request can return without taking it out of the slot")
+        if not all(b.must_pass_fs(r, through_nodes=[d[0] for d in dones], start=e, assume=asm) for r in b.return_blocks()):
+            ok = False
+            det.append("a run that saw a manual request can return without writing `done`")
+    R.check(rule, COORD + "|manual-request-always-consumed", ok, where(b),
+            "every worker run that observed a manual compaction request writes `done` and clears the slot before returning", "; ".join(sorted(set(det))))
+    f = P.body("db::DB::force_level_compaction")
+    if f is not None:
+        R.analysed(f)
+        sets = field_stores(f, "maybe_manual_compaction")
+        sch = sites_reaching(P, f, "compaction::worker::CompactionWorker::schedule_task")
+        ok = bool(sets) and bool(sch)
+        R.check(rule, f.path + "|request-installed-and-scheduled", ok, where(f),
+                "force_level_compaction installs its request and schedules the worker", "stores=%d schedule sites=%d" % (len(sets), len(sch)))
